@@ -191,6 +191,21 @@ let handle cmd args =
       let st = unhex str in
       (match expandmacros (nat_of_int (List.length st + 1)) (parse_macros macros) (in_action = "1") st with
        | Some (r, e) -> "S" ^ hex r ^ " " ^ string_of_int (int_of_nat e) | None -> "FUEL")
+  | "flow", kind :: args ->
+      let a = List.map unhex args in
+      let e = (match kind, a with
+        | "message", [root; sub; name] -> e_message_path root sub name
+        | "delivered", [dest; sub; name] -> e_delivered_path dest sub name
+        | "tmp", [tmpdir] -> e_tmp_template tmpdir
+        | _ -> failwith "flow") in
+      (match compute e with None -> "N" | Some s -> "S" ^ hex s)
+  | "childtz", [tz; zones] ->
+      let tz = if tz = "U" then None else Some (unhex (String.sub tz 1 (String.length tz - 1))) in
+      let zones = if zones = "-" then [] else List.map (fun z -> if z = "E" then [] else unhex z) (String.split_on_char ',' zones) in
+      (match child_tz tz zones with
+       | None -> "REFUSED"
+       | Some None -> "U"
+       | Some (Some v) -> "S" ^ (if v = [] then "" else hex v))
   | "fold", [f; str] ->
       "S" ^ hex (fold_case (match f with "l" -> FoldLower | "u" -> FoldUpper | _ -> FoldNone) (unhex str))
   | "io", [a; ver; outs] ->
